@@ -118,7 +118,7 @@ func HarnessRestartEquiv() {
 	case 2:
 		svc.pauseController.Stop(stopMsg)
 	}
-	vAssert(orig.installService(svc) == nil, "restart: install")
+	vAssert(vInstall(orig, svc), "restart: install")
 
 	// ---- restart: a fresh router restores the file written by the original ----
 	first := append([]byte{}, vByName["/state"].data...)
